@@ -32,6 +32,13 @@ type CorruptTask struct {
 	Path []O    `json:"path"`
 	Both bool   `json:"both"`
 	Only string `json:"only,omitempty"` // evaluate only the corruption with this label
+	// Weak: the image was taken after a transaction that flushed pages and was
+	// aborted. Such a transaction may have recycled pages that only the older
+	// header's state uses, so falling back to the older header cannot be
+	// expected to restore it: with the *newest* header damaged only "Open does
+	// not panic, hang or leak the lock" is checked. With the older header
+	// damaged the full oracle applies.
+	Weak bool `json:"weak,omitempty"`
 }
 
 // CorruptResult is the answer.
@@ -295,6 +302,17 @@ func handleCorrupt(raw []byte) interface{} {
 			expect, expectTxid = &st, txid[intact]
 		}
 		viol, outcome := checkDamaged(cfg, env.Cfg, bad, expect, expectTxid, c.crafted)
+		if t.Weak && (c.crafted || c.damaged[active]) {
+			kept := viol[:0]
+			for _, v := range viol {
+				switch v.Class {
+				case "open-panic", "lock-leaked", "opened-without-intact-header", "deadlock", "livelock", "panic/thread":
+					kept = append(kept, v)
+				}
+			}
+			viol = kept
+			outcome = "weak:" + outcome
+		}
 		res.Outcomes[outcome]++
 		for _, v := range viol {
 			v.Class = "header/" + classOfLabel(c.label) + "/" + v.Class
@@ -436,6 +454,19 @@ func replayCorrupt(raw json.RawMessage) []string {
 	return out
 }
 
+// abortedWithFlush: the transaction that n's last operation ended wrote pages before it was aborted.
+func abortedWithFlush(n *xstate.Node) bool {
+	for x := n.Parent; x != nil && x.Parent != nil; x = x.Parent {
+		switch x.Op.K {
+		case pagedrv.OBegin:
+			return false
+		case pagedrv.OFlushTx, pagedrv.OFlushPage, pagedrv.OCheckpoint:
+			return true
+		}
+	}
+	return false
+}
+
 func runC16(ctx *core.Ctx, pool *par.Pool) {
 	cfgs := []pagedrv.Cfg{pagedrv.CfgA, pagedrv.CfgC, pagedrv.CfgG}
 	depth := 5
@@ -446,7 +477,7 @@ func runC16(ctx *core.Ctx, pool *par.Pool) {
 		ctx.SetBudget(15 * time.Minute)
 	}
 	var total xstate.Stats
-	images, distinct, states := 0, 0, 0
+	images, distinct, states, weakImages := 0, 0, 0, 0
 	outcomes := map[string]int{}
 	// the older header must stay usable: histories in which a commit releases overflow pages and truncates the file
 	overflowAlphabet := []O{{K: pagedrv.OBegin}, {K: pagedrv.OBegin, B: 1}, {K: pagedrv.OFree, A: 0}, {K: pagedrv.OFree, A: -1}, {K: pagedrv.OFreeRun, A: 20, B: 12},
@@ -465,6 +496,11 @@ func runC16(ctx *core.Ctx, pool *par.Pool) {
 		}
 		runs = append(runs, c16run{cfg, seedEmpty, crashAlphabet(true), d})
 	}
+	// two generations of free-list pages: the page that held the free list of the previous commit is free now and the
+	// next transaction takes it for an overwrite copy; aborted after a flush, it has destroyed what the older header needs
+	seedTwoLists := seed{"two-free-lists", []O{{K: pagedrv.OBegin}, {K: pagedrv.OAlloc, A: 7}, {K: pagedrv.OWriteAll}, {K: pagedrv.OCommit},
+		{K: pagedrv.OBegin}, {K: pagedrv.OFreeEveryOther}, {K: pagedrv.OCommit}, {K: pagedrv.OBegin}, {K: pagedrv.OFree, A: 0}, {K: pagedrv.OCommit}}}
+	runs = append(runs, c16run{pagedrv.CfgA, seedTwoLists, append(crashAlphabet(true), O{K: pagedrv.OWriteAll, B: pagedrv.WFull}), 4})
 	if ctx.Quick() {
 		runs = append(runs, c16run{pagedrv.CfgB, seedOverflow, overflowAlphabet, 4})
 	} else {
@@ -472,7 +508,7 @@ func runC16(ctx *core.Ctx, pool *par.Pool) {
 	}
 	for _, run := range runs {
 		cfg := run.cfg
-		var quiet []*xstate.Node
+		var quiet, aborted []*xstate.Node
 		seenLog := map[string]bool{}
 		share := ctx.FairShare(len(runs), 1)
 		endRun := ctx.Phase(share)
@@ -485,6 +521,11 @@ func runC16(ctx *core.Ctx, pool *par.Pool) {
 						seenLog[n.Log] = true
 						quiet = append(quiet, n)
 					}
+					// an aborted transaction that flushed pages: one image per distinct disk contents
+					if n.Quiet && (n.Op.K == pagedrv.ORollback || n.Op.K == pagedrv.OCloseTx) && abortedWithFlush(n) && !seenLog["abort:"+n.Key] {
+						seenLog["abort:"+n.Key] = true
+						aborted = append(aborted, n)
+					}
 				}
 			}})
 		endBFS()
@@ -495,6 +536,10 @@ func runC16(ctx *core.Ctx, pool *par.Pool) {
 		tasks = append(tasks, CorruptTask{Type: "corrupt", Cfg: cfg.Name, Path: run.seed.Ops, Both: true})
 		for i, n := range quiet {
 			tasks = append(tasks, CorruptTask{Type: "corrupt", Cfg: cfg.Name, Path: n.Path(), Both: i%4 == 0})
+		}
+		for _, n := range aborted {
+			tasks = append(tasks, CorruptTask{Type: "corrupt", Cfg: cfg.Name, Path: n.Path(), Weak: true})
+			weakImages++
 		}
 		raw := make([][]byte, len(tasks))
 		for i := range tasks {
@@ -540,6 +585,7 @@ func runC16(ctx *core.Ctx, pool *par.Pool) {
 	ctx.Set("states", total.States)
 	ctx.Set("transitions", total.Transitions)
 	ctx.Set("committed_images", states)
+	ctx.Set("images_after_aborted_flush", weakImages)
 	ctx.Set("evaluations", images)
 	ctx.Set("distinct_nontrivial", distinct)
 	ctx.Set("open_outcomes", outcomes)
